@@ -25,6 +25,7 @@ TRUSTED_BASE = [
     "hand-written Lean model of the code; tied to /repo by the differential correspondence run of this check (sampled, not proved)",
     "harness/extract.py (table translator) and the bpdriver line parser/printer",
     "harness/extract_src.py (source translator: Python AST of the codec primitives -> lean/BpProofs/Gen/SrcCodec.lean, re-run on every check) and lean/BpProofs/PyPrelude.lean (what the Python primitives it maps to mean)",
+    "harness/extract_srcimp.py (source translator: Python AST of the reference_* functions and the dispatch of get_type_reference of compile/importing.py -> lean/BpProofs/Gen/SrcImporting.lean, re-run on every check) and lean/BpProofs/PyPreludeStr.lean (str / list slicing, indexing, join, split, os.path.commonprefix, set.add as an ordered list)",
     "that each Lean statement in lean/BpProofs/Props says what the English property says",
 ]
 
